@@ -44,22 +44,20 @@ theorem erase_of_lookup_none {m : AMap κ ν} {k : κ} (h : lookup m k = none) :
   | nil => rfl
   | cons p rest ih =>
     obtain ⟨k', v⟩ := p
-    simp only [lookup] at h
     by_cases hk : k' = k
-    · simp [hk] at h
-    · simp only [hk, if_false] at h
-      rw [erase_cons, if_neg hk, ih h]
+    · simp [lookup, hk] at h
+    · simp only [lookup, hk, ↓reduceIte] at h
+      simp only [erase, hk, ↓reduceIte, ih h]
 
 theorem mem_of_lookup {m : AMap κ ν} {k : κ} {v : ν} (h : lookup m k = some v) : (k, v) ∈ m.toList := by
   induction m with
   | nil => simp [lookup] at h
   | cons p rest ih =>
     obtain ⟨k', v'⟩ := p
-    simp only [lookup] at h
     by_cases hk : k' = k
-    · simp only [hk, if_true, Option.some.injEq] at h
+    · simp only [lookup, hk, Option.some.injEq] at h
       subst hk; subst h; exact List.mem_cons_self
-    · simp only [hk, if_false] at h
+    · simp only [lookup, hk, ↓reduceIte] at h
       exact List.mem_cons_of_mem _ (ih h)
 
 theorem mem_erase {m : AMap κ ν} {k : κ} {p : κ × ν} (h : p ∈ (erase m k).toList) : p ∈ m.toList := by
@@ -67,10 +65,9 @@ theorem mem_erase {m : AMap κ ν} {k : κ} {p : κ × ν} (h : p ∈ (erase m k
   | nil => exact h
   | cons q rest ih =>
     obtain ⟨k', v'⟩ := q
-    simp only [erase] at h
     by_cases hk : k' = k
-    · simp only [hk, if_true] at h; exact List.mem_cons_of_mem _ (ih h)
-    · simp only [hk, if_false] at h
+    · simp only [erase, hk, ↓reduceIte] at h; exact List.mem_cons_of_mem _ (ih h)
+    · simp only [erase, hk, ↓reduceIte] at h
       rcases List.mem_cons.mp h with h | h
       · rw [h]; exact List.mem_cons_self
       · exact List.mem_cons_of_mem _ (ih h)
@@ -82,15 +79,13 @@ theorem sum_erase {m : AMap κ Int} {k : κ} {c : Int} (hn : NodupKeys m) (h : l
   | cons p rest ih =>
     obtain ⟨k', v⟩ := p
     have hc : k' ∉ keys rest ∧ (keys rest).Nodup := by simpa [NodupKeys, keys] using hn
-    simp only [lookup] at h
-    simp only [erase]
     by_cases hk : k' = k
-    · simp only [hk, if_true, Option.some.injEq] at h ⊢
+    · simp only [lookup, hk, Option.some.injEq] at h
       subst h
       have hnone : lookup rest k = none := lookup_none_of_not_mem_keys (hk ▸ hc.1)
-      rw [erase_of_lookup_none hnone, sum_cons]; omega
-    · simp only [hk, if_false] at h ⊢
-      rw [sum_cons, sum_cons, ih hc.2 h]; omega
+      simp only [erase, hk, ↓reduceIte, erase_of_lookup_none hnone, sum]; omega
+    · simp only [lookup, hk, ↓reduceIte] at h
+      simp only [erase, hk, ↓reduceIte, sum, ih hc.2 h]; omega
 
 theorem size_erase {m : AMap κ ν} {k : κ} {c : ν} (hn : NodupKeys m) (h : lookup m k = some c) :
     size (erase m k) + 1 = size m := by
@@ -99,14 +94,12 @@ theorem size_erase {m : AMap κ ν} {k : κ} {c : ν} (hn : NodupKeys m) (h : lo
   | cons p rest ih =>
     obtain ⟨k', v⟩ := p
     have hc : k' ∉ keys rest ∧ (keys rest).Nodup := by simpa [NodupKeys, keys] using hn
-    simp only [lookup] at h
-    simp only [erase]
     by_cases hk : k' = k
-    · simp only [hk, if_true] at h ⊢
-      have hnone : lookup rest k = none := lookup_none_of_not_mem_keys (hk ▸ hc.1)
-      rw [erase_of_lookup_none hnone]; rfl
-    · simp only [hk, if_false] at h ⊢
+    · have hnone : lookup rest k = none := lookup_none_of_not_mem_keys (hk ▸ hc.1)
+      simp only [erase, hk, ↓reduceIte, erase_of_lookup_none hnone]; rfl
+    · simp only [lookup, hk, ↓reduceIte] at h
       have := ih hc.2 h
+      simp only [erase, hk, ↓reduceIte]
       simp only [size, List.length_cons] at this ⊢; omega
 
 theorem sum_insert_new {m : AMap κ Int} {k : κ} (c : Int) (h : lookup m k = none) :
